@@ -73,7 +73,11 @@ def validate(ctx: Ctx, module: str, rows: list, *, invariants, files: dict | Non
             envv[en] = str(d / f"{en}.ndjson")
         envv.update(env or {})
         res = ctx.tlc(module, cfg(invariants, spec=spec, constants=constants), env=envv, name=name + part,
-                      timeout=timeout, cont=bool(part), java_opts=java_opts, workers=workers, eval_as_violation=True)
+                      timeout=timeout, cont=bool(part), java_opts=java_opts, workers=workers, eval_as_violation=True,
+                      quiet=bool(part))
+        if part:
+            ctx.log(f"TLC {name}{part}: {len(part_rows)} rows that carry the key of a committed known finding, "
+                    f"{len(res.violations)} rejected (reported as KNOWN-FINDING, anything else as a violation)")
         if count_traces:
             ctx.traces += len(part_rows)
         if not res.violations and res.distinct < len(part_rows) + 1:
